@@ -2,7 +2,7 @@
 //! crate, driven through the verification hooks with an in-memory provider covering the whole
 //! word-addressable space (stored prefix + fill byte + sparse patches).
 //!
-//! modes: range | wf (well-formed generated devices) | adv (adversarial images) | alias
+//! modes: range | raw (bodies of eeprom_read_raw / eeprom_read / eeprom_write_dangerously) | wf (well-formed generated devices) | adv (adversarial images) | alias
 use ethercrab::error::Error;
 use ethercrab::verif::{self, EepromDataProvider};
 use std::cell::{Cell, RefCell};
@@ -112,8 +112,11 @@ fn range_case(rng: &mut Rng, release: bool) -> String {
     let cs = if rng.chance(1, 2) { 4 } else { 8 };
     let start: u16 = match rng.below(10) { 0 => rng.edgy(16) as u16, 1 => 0x7ff0 + rng.below(0x20) as u16, 2 => 0xfff0 + rng.below(16) as u16, _ => rng.below((plen as u64 / 2).max(1) + 2) as u16 };
     let len: u16 = match rng.below(10) { 0 => rng.edgy(16) as u16, 1 => 0x8000u16.wrapping_sub(start).wrapping_add(rng.below(3) as u16).wrapping_sub(1), 2 => 0, _ => rng.below(40) as u16 };
-    let nops = rng.range(1, 7) as usize;
-    let ops: Vec<(u8, u16)> = (0..nops).map(|_| {
+    let raw = rng.chance(1, 3);
+    let raw_n = match rng.below(6) { 0 => rng.range(0, 600) as u16, 1 => 1, _ => rng.range(0, 40) as u16 };
+    let (start, len) = if raw { (if rng.chance(1, 8) { 0xffffu16 - rng.below(20) as u16 } else { rng.below((plen as u64 / 2) + 4) as u16 }, raw_n.div_ceil(2)) } else { (start, len) };
+    let nops = if raw { 1 } else { rng.range(1, 7) as usize };
+    let ops: Vec<(u8, u16)> = if raw { vec![(rng.below(2) as u8, raw_n)] } else { (0..nops).map(|_| {
         let kind = *rng.pick(&[0u8, 0, 1, 1, 1, 2, 2, 3, 4, 5]);
         let n = match kind {
             3 => match rng.below(6) { 0 => rng.edgy(16) as u16, _ => rng.below(30) as u16 },
@@ -121,15 +124,33 @@ fn range_case(rng: &mut Rng, release: bool) -> String {
             _ => match rng.below(8) { 0 => rng.range(30, 600) as u16, 1 => 0, _ => rng.below(30) as u16 },
         };
         (kind, n)
-    }).collect();
+    }).collect() };
     let m = img.mem(cs);
     let n0 = m.overlay.borrow().len();
     let mut out: Vec<i64> = Vec::new();
     let r = std::panic::catch_unwind(std::panic::AssertUnwindSafe(|| block_on(verif::sii_range(m.clone(), start, len, &ops, &mut |v| out.push(v)))));
     let writes: Vec<String> = m.overlay.borrow()[n0..].iter().map(|(a, v)| format!("[{},{}]", a, v)).collect();
-    format!("{{\"kind\":\"range\",\"release\":{},\"cs\":{},{},\"start\":{},\"len\":{},\"ops\":[{}],{},\"out\":{:?},\"writes\":[{}]}}",
+    format!("{{\"kind\":\"range\",\"raw\":{raw},\"release\":{},\"cs\":{},{},\"start\":{},\"len\":{},\"ops\":[{}],{},\"out\":{:?},\"writes\":[{}]}}",
         release, cs, img.json(), start, len, ops.iter().map(|(k, n)| format!("[{},{}]", k, n)).collect::<Vec<_>>().join(","),
         outcome(r, &m), out, writes.join(","))
+}
+
+// ---------------- the public raw read / typed read / typed write bodies ----------------
+fn raw_case(rng: &mut Rng, release: bool) -> String {
+    let plen = rng.range(8, 200) as usize;
+    let img = Image { prefix: rng.bytes(plen), fill: rng.byte(), patches: if rng.chance(1, 5) { vec![((rng.edgy(17) as u32) & 0x1ffff, rng.byte())] } else { vec![] } };
+    let cs = if rng.chance(1, 2) { 4 } else { 8 };
+    let word: u16 = match rng.below(10) { 0 => rng.edgy(16) as u16, 1 => 0xffffu16 - rng.below(12) as u16, 2 => 0x7ffau16 + rng.below(12) as u16, _ => rng.below(plen as u64 / 2 + 4) as u16 };
+    let n: u16 = match rng.below(8) { 0 => rng.range(40, 600) as u16, 1 => 0, 2 => 1, _ => rng.range(1, 40) as u16 };
+    let (exact, write) = match rng.below(3) { 0 => (false, false), 1 => (true, false), _ => (false, true) };
+    let n = if write { n.min(64) } else { n };
+    let m = img.mem(cs);
+    let n0 = m.overlay.borrow().len();
+    let mut out: Vec<i64> = Vec::new();
+    let r = std::panic::catch_unwind(std::panic::AssertUnwindSafe(|| block_on(verif::sii_raw(m.clone(), word, n, exact, write, &mut |v| out.push(v)))));
+    let writes: Vec<String> = m.overlay.borrow()[n0..].iter().map(|(a, v)| format!("[{},{}]", a, v)).collect();
+    format!("{{\"kind\":\"raw\",\"release\":{},\"cs\":{},{},\"word\":{},\"n\":{},\"exact\":{},\"write\":{},{},\"out\":{:?},\"writes\":[{}]}}",
+        release, cs, img.json(), word, n, exact, write, outcome(r, &m), out, writes.join(","))
 }
 
 // ---------------- well-formed device descriptions ----------------
@@ -385,6 +406,7 @@ fn main() {
     for k in 0..n {
         let line = match mode {
             "range" => range_case(&mut rng, release),
+            "raw" => raw_case(&mut rng, release),
             "wf" => wf_case(&mut rng, release),
             "adv" => adv_case(&mut rng, release),
             "alias" => alias_case(&mut rng, k + seed as usize * 7919, release),
